@@ -27,6 +27,9 @@ double vreplay_getf(const char *name);
 #undef __CPROVER_assume
 #define __CPROVER_assume(c) VASSUME(c)
 #define main vharness_main
+#define __CPROVER_overflow_plus(a, b) __builtin_add_overflow_p(a, b, (__typeof__((a) + (b))) 0)
+#define __CPROVER_overflow_minus(a, b) __builtin_sub_overflow_p(a, b, (__typeof__((a) - (b))) 0)
+#define __CPROVER_overflow_mult(a, b) __builtin_mul_overflow_p(a, b, (__typeof__((a) * (b))) 0)
 #else
 unsigned long nondet_ulong(void); double nondet_double(void); float nondet_float(void);
 #define VASSERT(c, msg) __CPROVER_assert((c), "VASSERT: " msg)
